@@ -198,4 +198,109 @@ theorem genLinks_eq (d : Dragonfly) :
   rw [← greenPhase, ← blackPhase, ← bluePhase]
   rfl
 
+/-- the assignment list after the green phase / after the black phase -/
+def stG (d : Dragonfly) : Nat × List DAssign := runW (emitG d) (greenIdx d) (localPhase d)
+def stK (d : Dragonfly) : Nat × List DAssign := runW (emitK d) (blackIdx d) (stG d)
+
+theorem genLinks_eq' (d : Dragonfly) : d.genLinks = runW (emitB d) (blueIdx d) (stK d) := genLinks_eq d
+
+/-! ### the index lists -/
+
+theorem mem_greenIdx (d : Dragonfly) (i j k : Nat) : (i, j, k) ∈ greenIdx d ↔ i < d.G * d.C ∧ j < k ∧ k < d.B := by
+  simp only [greenIdx, mem_nest, List.mem_range'_1]
+  omega
+
+theorem mem_blackIdx (d : Dragonfly) (i j k l : Nat) :
+    (i, j, k, l) ∈ blackIdx d ↔ i < d.G ∧ j < k ∧ k < d.C ∧ l < d.B := by
+  simp only [blackIdx, mem_nest, List.mem_range'_1]
+  omega
+
+theorem mem_blueIdx (d : Dragonfly) (i j : Nat) : (i, j) ∈ blueIdx d ↔ i < j ∧ j < d.G := by
+  simp only [blueIdx, mem_nest, List.mem_range'_1]
+  omega
+
+theorem nodup_greenIdx (d : Dragonfly) : (greenIdx d).Nodup :=
+  nodup_nest _ _ (List.nodup_range' 1) (fun _ => nodup_nest _ _ (List.nodup_range' 1) (fun _ => List.nodup_range' 1))
+
+theorem nodup_blackIdx (d : Dragonfly) : (blackIdx d).Nodup :=
+  nodup_nest _ _ (List.nodup_range' 1) (fun _ => nodup_nest _ _ (List.nodup_range' 1)
+    (fun _ => nodup_nest _ _ (List.nodup_range' 1) (fun _ => List.nodup_range' 1)))
+
+theorem nodup_blueIdx (d : Dragonfly) : (blueIdx d).Nodup :=
+  nodup_nest _ _ (List.nodup_range' 1) (fun _ => List.nodup_range' 1)
+
+/-! ### the local phase only writes `.node` slots -/
+
+theorem forRange_inv {σ : Type} (P : σ → Prop) (lo hi : Nat) (f : Nat → σ → σ) (s : σ) (h0 : P s)
+    (hs : ∀ i s, P s → P (f i s)) : P (forRange lo hi f s) := by
+  unfold forRange
+  generalize List.range (hi - lo) = xs
+  induction xs generalizing s with
+  | nil => exact h0
+  | cons x xs ih => exact ih _ (hs _ _ h0)
+
+theorem localPhase_node (d : Dragonfly) : ∀ a ∈ (localPhase d).2, ∃ i, a.slot = .node i := by
+  unfold localPhase
+  apply forRange_inv (fun s : Nat × List DAssign => ∀ a ∈ s.2, ∃ i, a.slot = .node i)
+  · intro a h; cases h
+  · intro i s hs
+    apply forRange_inv (fun s : Nat × List DAssign => ∀ a ∈ s.2, ∃ i, a.slot = .node i) _ _ _ _ hs
+    intro n s hs
+    obtain ⟨uid, as⟩ := s
+    dsimp only
+    intro a ha
+    split at ha
+    · rcases List.mem_cons.1 ha with rfl | ha
+      · exact ⟨_, rfl⟩
+      · rcases List.mem_cons.1 ha with rfl | ha
+        · exact ⟨_, rfl⟩
+        · exact hs a ha
+    · rcases List.mem_cons.1 ha with rfl | ha
+      · exact ⟨_, rfl⟩
+      · exact hs a ha
+
+/-- where an entry of the final list comes from -/
+theorem mem_genLinks (d : Dragonfly) (a : DAssign) (h : a ∈ d.genLinks.2) :
+    (∃ i, a.slot = .node i) ∨ (∃ x u, (x, u) ∈ tag (greenIdx d) (localPhase d).1 ∧ a ∈ emitG d x u) ∨
+    (∃ x u, (x, u) ∈ tag (blackIdx d) (stG d).1 ∧ a ∈ emitK d x u) ∨
+    (∃ x u, (x, u) ∈ tag (blueIdx d) (stK d).1 ∧ a ∈ emitB d x u) := by
+  rw [genLinks_eq'] at h
+  rcases (mem_runW _ _ _ _).1 h with h | h
+  · rcases (mem_runW _ _ _ _).1 h with h | h
+    · rcases (mem_runW _ _ _ _).1 h with h | h
+      · exact Or.inl (localPhase_node d a h)
+      · exact Or.inr (Or.inl h)
+    · exact Or.inr (Or.inr (Or.inl h))
+  · exact Or.inr (Or.inr (Or.inr h))
+
+theorem mem_of_green (d : Dragonfly) (a : DAssign) (x : Nat × Nat × Nat) (u : Nat)
+    (hx : (x, u) ∈ tag (greenIdx d) (localPhase d).1) (ha : a ∈ emitG d x u) : a ∈ d.genLinks.2 := by
+  rw [genLinks_eq']
+  exact (mem_runW _ _ _ _).2 (Or.inl ((mem_runW _ _ _ _).2 (Or.inl ((mem_runW _ _ _ _).2 (Or.inr ⟨x, u, hx, ha⟩)))))
+
+theorem mem_of_black (d : Dragonfly) (a : DAssign) (x : Nat × Nat × Nat × Nat) (u : Nat)
+    (hx : (x, u) ∈ tag (blackIdx d) (stG d).1) (ha : a ∈ emitK d x u) : a ∈ d.genLinks.2 := by
+  rw [genLinks_eq']
+  exact (mem_runW _ _ _ _).2 (Or.inl ((mem_runW _ _ _ _).2 (Or.inr ⟨x, u, hx, ha⟩)))
+
+theorem mem_of_blue (d : Dragonfly) (a : DAssign) (x : Nat × Nat) (u : Nat)
+    (hx : (x, u) ∈ tag (blueIdx d) (stK d).1) (ha : a ∈ emitB d x u) : a ∈ d.genLinks.2 := by
+  rw [genLinks_eq']
+  exact (mem_runW _ _ _ _).2 (Or.inr ⟨x, u, hx, ha⟩)
+
+theorem emitG_slot (d : Dragonfly) (x : Nat × Nat × Nat) (u : Nat) (a : DAssign) (h : a ∈ emitG d x u) :
+    ∃ k, a.slot = .green k := by
+  simp only [emitG, List.mem_cons, List.not_mem_nil, or_false] at h
+  rcases h with rfl | rfl <;> exact ⟨_, rfl⟩
+
+theorem emitK_slot (d : Dragonfly) (x : Nat × Nat × Nat × Nat) (u : Nat) (a : DAssign) (h : a ∈ emitK d x u) :
+    ∃ k, a.slot = .black k := by
+  simp only [emitK, List.mem_cons, List.not_mem_nil, or_false] at h
+  rcases h with rfl | rfl <;> exact ⟨_, rfl⟩
+
+theorem emitB_slot (d : Dragonfly) (x : Nat × Nat) (u : Nat) (a : DAssign) (h : a ∈ emitB d x u) :
+    a.slot = .blue := by
+  simp only [emitB, List.mem_cons, List.not_mem_nil, or_false] at h
+  rcases h with rfl | rfl <;> rfl
+
 end SgVerif.C26
